@@ -293,15 +293,26 @@ Definition fm_or_insert (fm : list (path * minfo)) (p : path) (m : minfo) : list
 Definition fm_set (fm : list (path * minfo)) (p : path) (m : minfo) : list (path * minfo) :=
   filter (fun e => negb (path_eqb (fst e) p)) fm ++ [(p, m)].
 
-Definition minfo_of (cur : N) (src : modsrc) : minfo :=
-  match src with SFile id _ => MFile id | SClone => MDecl cur end.
-Definition insert_ext (cur : N) (s : st) (e : ext) : st :=
-  mkSt (parsed s) (fm_or_insert (fmap s) (fst (fst e)) (minfo_of cur (snd e))) (sticky s).
+(* the file whose items are being visited: its id and the literal path it was loaded under
+   (= span_to_filename of every item of it) *)
+Definition curfile : Type := (N * path)%type.
+Definition minfo_of (cur : curfile) (src : modsrc) : minfo :=
+  match src with SFile id _ => MFile id | SClone => MDecl (fst cur) end.
+(* modules.rs:308 insert_file_mod (repaired code, [fixed] = true): the module is stored only when its span
+   lies in the file it is stored under; a module parsed from mod_path always does, the clone of the
+   declaration's module does when the declaring file is mod_path itself.
+   [fixed] = false: the code before commit 0b20f11, an unconditional entry().or_insert(). *)
+Definition span_in_file (cur : curfile) (e : ext) : bool :=
+  match snd e with SFile _ _ => true | SClone => path_eqb (snd cur) (fst (fst e)) end.
+Definition insert_ext (fixed : bool) (cur : curfile) (s : st) (e : ext) : st :=
+  if negb fixed || span_in_file cur e
+  then mkSt (parsed s) (fm_or_insert (fmap s) (fst (fst e)) (minfo_of cur (snd e))) (sticky s)
+  else s.
 (* modules.rs:286 insert_sub_mod *)
-Definition insert_sub_mod (cur : N) (s : st) (k : submod) : st :=
+Definition insert_sub_mod (fixed : bool) (cur : curfile) (s : st) (k : submod) : st :=
   match k with
-  | External e => insert_ext cur s e
-  | MultiExternal es => fold_left (insert_ext cur) es s
+  | External e => insert_ext fixed cur s e
+  | MultiExternal es => fold_left (insert_ext fixed cur) es s
   | Internal => s
   end.
 
@@ -309,20 +320,20 @@ Definition insert_sub_mod (cur : N) (s : st) (k : submod) : st :=
    visit_cfg_if / visit_cfg_match (150-187: only the direct `mod` items of the macro body are visited),
    visit_sub_mod (251: the directory is saved and restored, hence passed by value here), peek_sub_mod (267),
    insert_sub_mod, visit_sub_mod_inner (308) and visit_sub_mod_after_directory_update (338).
-   [cur] is the id of the file whose items are being visited.  Fuel is consumed only when the items of
+   [cur] is the file whose items are being visited.  Fuel is consumed only when the items of
    another file are entered. *)
-Fixpoint visit_item (fuel : nat) (it : decl) (cur : N) (d : dctx) (s : st) {struct fuel} : res st :=
-  let visit_src (src : modsrc) (d' : dctx) (s' : st) : res st :=
+Fixpoint visit_item (fixed : bool) (fuel : nat) (it : decl) (cur : curfile) (d : dctx) (s : st) {struct fuel} : res st :=
+  let visit_src (p : path) (src : modsrc) (d' : dctx) (s' : st) : res st :=
     match src with
     | SClone => Ok s'                       (* the clone has no items: visit_mod_outside_ast(empty) *)
     | SFile id items =>
         match fuel with
         | O => Err OutOfFuel
-        | S f => fold_res (fun s1 it1 => visit_item f it1 id d' s1) items s'
+        | S f => fold_res (fun s1 it1 => visit_item fixed f it1 (id, p) d' s1) items s'
         end
     end in
   let visit_ext (s' : st) (e : ext) : res st :=
-    visit_src (snd e) (mkD (parent (fst (fst e))) (snd (fst e))) s' in
+    visit_src (fst (fst e)) (snd e) (mkD (parent (fst (fst e))) (snd (fst e))) s' in
   (fix vi (it : decl) (d : dctx) (s : st) {struct it} : res st :=
      match it with
      | Other => Ok s
@@ -340,7 +351,7 @@ Fixpoint visit_item (fuel : nat) (it : decl) (cur : N) (d : dctx) (s : st) {stru
               | (_, Err e) => Err e
               | (s1, Ok None) => Ok s1
               | (s1, Ok (Some k)) =>
-                  let s2 := insert_sub_mod cur s1 k in
+                  let s2 := insert_sub_mod fixed cur s1 k in
                   match k with
                   | External e => visit_ext s2 e
                   | MultiExternal es => fold_res visit_ext es s2
@@ -349,8 +360,8 @@ Fixpoint visit_item (fuel : nat) (it : decl) (cur : N) (d : dctx) (s : st) {stru
               end
      end) it d s.
 
-Definition visit_items (fuel : nat) (cur : N) (d : dctx) (s : st) (items : list decl) : res st :=
-  fold_res (fun s1 it => visit_item fuel it cur d s1) items s.
+Definition visit_items (fixed : bool) (fuel : nat) (cur : curfile) (d : dctx) (s : st) (items : list decl) : res st :=
+  fold_res (fun s1 it => visit_item fixed fuel it cur d s1) items s.
 
 (* lib.rs:560 Input::to_directory_ownership; None becomes UnownedViaBlock in format_project *)
 Definition to_directory_ownership (root : path) : own :=
@@ -383,7 +394,7 @@ Definition sort_fm (l : list (path * minfo)) : list (path * minfo) := fold_right
 (* formatting.rs:102 format_project + modules.rs:121 visit_crate: the paths handed to format_file, in order.
    A root that cannot be read/parsed is reported through another channel by the real code
    (report.add_parsing_error); here it is Err NotFound / Err ParseError. *)
-Definition resolve_fuel (fuel : nat) (cfg : config) (root : path) : res (list path) :=
+Definition resolve_fuel_gen (fixed : bool) (fuel : nat) (cfg : config) (root : path) : res (list path) :=
   if skip_children cfg && negb (input_is_stdin cfg) && path_ignored root then Ok []
   else
   match lookup root with
@@ -397,12 +408,17 @@ Definition resolve_fuel (fuel : nat) (cfg : config) (root : path) : res (list pa
           let d0 := mkD (parent root)
                         (if input_is_stdin cfg then Unowned else to_directory_ownership root) in
           let recursive := negb (input_is_stdin cfg) && negb (skip_children cfg) in
-          match (if recursive then visit_items fuel rid d0 s0 items else Ok s0) with
+          match (if recursive then visit_items fixed fuel (rid, root) d0 s0 items else Ok s0) with
           | Err e => Err e
           | Ok s => Ok (map fst (filter (keep cfg root) (sort_fm (fm_set (fmap s) root (MFile rid)))))
           end
       end
   end.
+
+(* the current code *)
+Definition resolve_fuel : nat -> config -> path -> res (list path) := resolve_fuel_gen true.
+(* the code before the repair of insert_sub_mod (commit 0b20f11) *)
+Definition resolve_fuel_pre : nat -> config -> path -> res (list path) := resolve_fuel_gen false.
 
 (* ------------------------------------------------------------------------------------------------ *)
 (* Specification: the language's rules (rustc_expand/src/module.rs; Reference, items/modules) as a
@@ -578,7 +594,12 @@ Record Tame (root : path) : Prop := mkTame {
       In (root, k) (decl_targets true c n a) -> k = root_ctx root;
   tame_syntax : forall c ds, Visit true true root c ds -> forallb decl_ok ds = true;
   (* cfg_attr(.., path = ..) candidates that exist are parsable files without #![rustfmt::skip], and when one
-     exists the default candidate has no #![rustfmt::skip] either (modules.rs:421, 544-561) *)
+     exists the default candidate has no #![rustfmt::skip] either (modules.rs:428, 551-568).
+     Still needed after the repair of insert_sub_mod (which only stopped the skipped file from being
+     written): an unparsable candidate is swallowed and leaves the error count set; a skipped candidate is
+     dropped the first time (a missing default is then NotFound) and counted the second time (the same
+     declaration is then accepted); a skipped default makes the declaration return None, dropping the
+     candidates that were parsed. *)
   tame_cfg_attr : forall c ds n a q,
       Visit true true root c ds -> In (ModDecl n a) ds -> skip a = false -> path_attr a = None ->
       In q (cfg_attr_paths a) -> exists_ (cdir c ++ q) = true ->
